@@ -815,10 +815,10 @@ class World(object):
         # validators repeated on the 304
         if not r.get('etag'):
             out.append(core.Violation('C20/304-validators/etag-missing', '304 without ETag for %s' % where, case))
-        elif r.get('etag') != e_now and not rewritten:
+        elif r.get('etag') != e_now and cache_served:
             out.append(core.Violation('C20/304-validators/etag-differs', '304 carries ETag %r, current is %r: %s'
                                       % (r.get('etag'), e_now, where), case))
-        if r.get('last-modified') and r.get('last-modified') != lm_now and not rewritten:
+        if r.get('last-modified') and r.get('last-modified') != lm_now and cache_served:
             out.append(core.Violation('C20/304-validators/last-modified-differs', '304 carries Last-Modified %r, current '
                                       'is %r: %s' % (r.get('last-modified'), lm_now, where), case))
         if inm is not None and inm == e_now and not by_date:
